@@ -131,6 +131,46 @@ def scenarios(which):
             cases += 1
             if r != [3, 3, 3]:
                 return dict(violation=True, cases=cases, what="re-indented definition returned the old definition's value %r" % (r,), witness="indentation-only edit")
+            # the code object swapped forth and back: A -> B -> A
+            mem7 = Memory(os.path.join(root, "c7"), verbose=0)
+            hs = define("def h(a, b):\n    return ('sum', a + b)\n", "h", "modswap")
+            hp = define("def h(a, b):\n    return ('prod', a * b)\n", "h", "modswap")
+            chs = mem7.cache(hs)
+            code_a = hs.__code__
+            seq = [chs(2, 5)]
+            hs.__code__ = hp.__code__
+            seq.append(chs(2, 5))
+            hs.__code__ = code_a
+            seq.append(chs(2, 5))
+            cases += 3
+            if seq != [("sum", 7), ("prod", 10), ("sum", 7)]:
+                return dict(violation=True, cases=cases, what="code object swapped A -> B -> A: calls returned %r" % (seq,), witness="f.__code__ = B.__code__; f.__code__ = A's code again")
+            # the same function cached in two locations: location 2 holds entries of the old code from an earlier session
+            loc1, loc2 = os.path.join(root, "c8a"), os.path.join(root, "c8b")
+            t1 = define("def t(x):\n    return ('t-old', x)\n", "t", "modtwoloc")
+            Memory(loc2, verbose=0).cache(t1)(0)
+            fresh_process_state()
+            t2 = define("def t(x):\n    return ('t-new', x)\n", "t", "modtwoloc")
+            r1 = Memory(loc1, verbose=0).cache(t2)(0)
+            r2 = Memory(loc2, verbose=0).cache(t2)(0)
+            cases += 2
+            if (r1, r2) != (("t-new", 0), ("t-new", 0)):
+                return dict(violation=True, cases=cases, what="function cached in two locations: after a call through location 1 the call through location 2 returned %r" % (r2,),
+                            witness="session 1: Memory(loc2).cache(old)(0); session 2 (edited): Memory(loc1).cache(new)(0); Memory(loc2).cache(new)(0)")
+            # entries written by forced calls only (MemorizedFunc.call), then the function is edited
+            loc9 = os.path.join(root, "c9")
+            u1 = define("def u(x):\n    return ('u-old', x)\n", "u", "modforced")
+            cu = Memory(loc9, verbose=0).cache(u1)
+            for i in range(3):
+                cu.call(i)
+            fresh_process_state()
+            u2 = define("def u(x):\n    return ('u-new', x)\n", "u", "modforced")
+            cu2 = Memory(loc9, verbose=0).cache(u2)
+            got = [cu2(i) for i in range(3)]
+            cases += 3
+            if got != [("u-new", i) for i in range(3)]:
+                return dict(violation=True, cases=cases, what="entries written by forced calls survive an edit of the function: %r" % (got,),
+                            witness="session 1: f.call(0), f.call(1), f.call(2) only; session 2 (edited): f(0), f(1), f(2)")
             # K5: older still-referenced definition (same session)
             mem5 = Memory(os.path.join(root, "c5"), verbose=0)
             a = define("def k(x):\n    return ('a', x)\n", "k", "modk5")
